@@ -329,7 +329,9 @@ func (s emptyElementPseudoClassSelector) Match(n *html.Node) bool {
 		case html.ElementNode:
 			return false
 		case html.TextNode:
-			if strings.TrimSpace(nodeText(c)) == "" {
+			// only document white space is ignored (a no-break space
+			// is content)
+			if strings.Trim(nodeText(c), " \t\r\n\f") == "" {
 				continue
 			} else {
 				return false
